@@ -4,7 +4,7 @@ from geom import G, R, observe, call, build
 from props import common
 
 POLYH = ["tet", "tet2", "cube", "box", "obl", "prism", "pyr", "octa", "wedge", "pprism", "ppyr", "hprism"]
-POLYG = ["tri", "triObl", "sq", "rectObl", "trap", "par", "pent", "pentObl", "hex", "hexObl"]
+POLYG = ["tri", "triObl", "sq", "rectObl", "trap", "par", "pent", "pentObl", "hex", "hexObl", "stripH", "stripV", "triUp", "triDown"]
 INVS = ["Typed", "Symmetric", "InBoth", "ResultSane", "ProbesAgree", "VolMonotone", "L2Refines", "Emit"]
 
 
@@ -24,6 +24,9 @@ def run(res, pool, tier, seed):
     jobs.append(dict(module="MC_BodyBody.tla", tag="nested", invariants=INVS, timeout=3600, batch=40,
                      constants=dict(NL2=4, SA=6, OFF=2, GENK=set(), NGEN=1, S=2, BODIES1={"cube", "box", "octa", "ppyr", "hprism"},
                                     BODIES2={"cube", "tet2", "octa", "sq", "triObl", "hexObl", "prism"}, T=1, SEED=sd, NSHARD=6 if tier == "quick" else 1)))
+    jobs.append(dict(module="MC_BodyBody.tla", tag="coplanar-crossing", invariants=INVS, timeout=3600, batch=40,
+                     constants=dict(NL2=1, SA=2, OFF=0, GENK=set(), NGEN=1, S=2, BODIES1={"stripH", "triUp", "sq"}, BODIES2={"stripV", "triDown", "stripH"},
+                                    T=1, SEED=sd, NSHARD=2 if tier == "quick" else 1)))
     engine.run_jobs(res, jobs, pool)
     import traces
     traces.run_for(res, ["unit_tests", "driver", "sessions"] if tier != "quick" else ["unit_tests", "sessions"], {"C03"}, seed=seed + 2, nsessions=300 if tier == "quick" else 2500)
